@@ -642,6 +642,19 @@ def extract_fn(src, loc, spec, ed):
         for m in ms:
             ed.replace(sig_lo + m.start(), sig_lo + m.end(), m.expand(repl),
                        rule="SIG %s: %s" % (name, why))
+    # R15: `mut self` receiver (rejected by this Verus) -> `self` rebound to a mutable local `self_`
+    # at function entry; every `self` token of the body is renamed (Rust semantics of a by-value
+    # mutable binding)
+    r15 = None
+    for i in range(kw, brace):
+        if toks[i].text == "mut" and toks[i + 1].text == "self" and toks[i - 1].text == "(":
+            r15 = i
+    if r15 is not None:
+        ed.replace(toks[r15].pos, toks[r15 + 1].pos, "", rule="R15 %s: `mut self` receiver rebound as local `self_`" % name)
+        ed.insert(toks[brace].end, "\nlet mut self_ = self;\n", order=4)
+        for i in range(brace + 1, close):
+            if toks[i].kind == "ident" and toks[i].text == "self":
+                ed.replace(toks[i].pos, toks[i].end, "self_")
     # contract goes right before the body brace
     contract = spec.get("contract", "").strip()
     if contract:
@@ -961,6 +974,6 @@ def apply_slice(src, ed, open_idx, close_idx, table, what, forbidden=()):
         SKIP.append((s, e))
         res.append(("abstract", text[:70]))
     for i, row in enumerate(table):
-        if row[1] != "keep" and i not in fired:
+        if row[1] != "keep" and i not in fired and not (len(row) > 2 and row[2] == "optional"):
             raise Undecided("lost anchor: slice %s: no statement matches abstraction row %r" % (what, row[0][:60]))
     return res
